@@ -32,7 +32,8 @@ def plan(tier, seed):
     rng = P.rng("conv")
     for i in range(700 if quick else 12000):
         D = int(pick(rng, [1, 1, 2, 2, 3]))
-        lim = [9, 5, 4][D - 1]
+        big = i % 8 == 7           # size-dependent regime: long operands, > 3 channels
+        lim = [9, 5, 4][D - 1] if not big else [40, 12, 6][D - 1]
         m = [int(rng.integers(1, lim + 1)) for _ in range(D)]
         rel = pick(rng, ["shorter", "shorter", "equal", "longer", "longer", "any"])
         if rel == "shorter":
@@ -47,9 +48,10 @@ def plan(tier, seed):
         P.add("conv", m=m, n=n, rel=rel, mode=pick(rng, ["full", "valid", "valid"]),
               strides=None if rng.random() < 0.35 else [int(rng.integers(1, 4))
                                                         for _ in range(D)],
-              multi=multi, ci=int(rng.integers(1, 4)) if multi else 1,
-              co=int(rng.integers(1, 4)) if multi else 1,
-              batch=pick(rng, [[], [], [2], [2, 2]]),
+              multi=multi, ci=int(rng.integers(1, 7 if big else 4)) if multi else 1,
+              co=int(rng.integers(1, 7 if big else 4)) if multi else 1,
+              batch=pick(rng, [[], [], [2], [2, 2]] + ([[5]] if big else [])),
+              mag=pick(rng, [[1, 1], [1, 1], [1, 1], [1, 1], [1e8, 1e-10], [1e-10, 1], [1, 1e8]]),
               dd=pick(rng, ["complex128", "complex128", "float64", "complex64", "float32"]),
               df=pick(rng, ["complex128", "complex128", "float64", "complex64", "float32"]),
               via=pick(rng, ["func", "func", "linop"]))
@@ -133,6 +135,11 @@ def run_case(case):
     lay = sum(case["rs"]) % 8            # 1-3: data F / T / strided; 5-7: filter likewise
     data = relayout(crandn(rng, dshape, case["dd"]), lay if lay < 4 else 0)
     filt = relayout(crandn(rng, fshape, case["df"]), lay - 4 if lay >= 4 else 0)
+    md, mf = case.get("mag", [1, 1])     # magnitudes: convolution is bilinear, so homogeneous
+    if md != 1:
+        data = data * data.dtype.type(md)
+    if mf != 1:
+        filt = filt * filt.dtype.type(mf)
     ge = all(a >= c for a, c in zip(m, n))
     le = all(a <= c for a, c in zip(m, n))
     relcls = "ge" if ge and not le else "le" if le and not ge else "eq" if ge else "mixed"
@@ -220,6 +227,7 @@ def run_case(case):
     dc = crandn(rng, dshape, np.complex128 if mix in (0, 1) else np.float64)
     fc = crandn(rng, fshape, np.complex128 if mix in (0, 2, 3) else np.float64)
     y = crandn(rng, ref.shape, np.complex128 if mix in (0, 2) else np.float64)
+    dc, fc = dc * md, fc * mf
     try:
         out = sp.convolve(dc, fc, **kw)
         da = sp.convolve_data_adjoint(y, fc, dshape, **kw)
